@@ -37,6 +37,11 @@ def gen_axis(rnd, n, force_units=None):
         s = F(10) ** e
     g = max(s, F(1))
     if kind == "sampled":
+        if s == 1 and rnd.random() < 0.3:
+            # decimal intervals: the stored float is not the decimal; the exact value of the float is what the model gets
+            itv = F(rnd.choice([0.1, 0.2, 0.05, 0.3, 0.001]))
+            off = rnd.choice([None, F(0), F(0.1), F(-0.3)])
+            return {"kind": "sampled", "off": off, "itv": itv, "dunit": dunit, "tunit": tunit, "s": s, "g": g, "decimal": True}
         itv = g * rnd.choice([F(1, 4), F(1, 2), F(1), F(3, 2), F(2), F(5)])
         off = rnd.choice([None, F(0), g * F(1, 2), -g, g * 3])
         return {"kind": "sampled", "off": off, "itv": itv, "dunit": dunit, "tunit": tunit, "s": s, "g": g}
@@ -59,6 +64,18 @@ def coords(ax, n):
 def gen_region(rnd, ax, n, nice=False):
     """(start, width) in DIM units, chosen on / between / outside the stored samples"""
     c = coords(ax, n)
+    if ax.get("decimal"):
+        # positions the way a user writes them: j * 0.1 + offset evaluated in floating point (a hair off the sample)
+        fo = float(ax["off"] or 0)
+        fi = float(ax["itv"])
+        j = rnd.randrange(n)
+        start = F(j * fi + fo) if rnd.random() < 0.7 else F((j + 0.5) * fi + fo)
+        k = rnd.random()
+        if k < 0.4:
+            return start, None
+        j2 = rnd.randrange(j, n)
+        stop = F(j2 * fi + fo) if rnd.random() < 0.7 else F((j2 + 0.5) * fi + fo)
+        return start, F(float(stop) - float(start)) if stop >= start else F(0)
     step = ax["itv"] if ax["kind"] == "sampled" else (ax["g"] if ax["kind"] == "range" else F(1))
     k = rnd.random()
     j = rnd.randrange(n)
@@ -246,7 +263,18 @@ def oracle(c, r):
         if r[0] != "data" or r[1] != want_shape or r[2] != want:
             return ("feature data does not follow the link type", {"want_shape": want_shape, "got": r[:2]})
         return None
-    # tagged region
+    # tagged region; boundaries inside the float tolerance band of a sample (but not on it) are C07's known band:
+    # there the exact oracle does not apply and only the model (which has the tolerance) decides
+    for i, n in enumerate(shape):
+        ax = axes[i]
+        if ax["kind"] == "sampled" and i < len(c["pos"]):
+            start = c["pos"][i] * ax["s"]
+            e = c["ext"][i] if i < len(c["ext"]) else None
+            for b in (start, start + (e * ax["s"] if e is not None else 0)):
+                x = (b - (ax["off"] or 0)) / ax["itv"]
+                near = round(x)
+                if x != near and abs(x - near) <= F(1, 10 ** 8) + F(1, 10 ** 5) * abs(near):
+                    return None
     sets = []
     past = False
     degenerate = False
